@@ -904,6 +904,7 @@ type w3Out struct {
 	unmodel   map[string]bool
 	recs      []w3Record
 	perMethod map[string]int
+	vcount    map[string]int
 }
 
 func (o *w3Out) ctxRef(ps []*w3Princ, caller *util.Uint160) string {
@@ -1046,7 +1047,7 @@ func (w *w3World) runCall(o *w3Out, v *w3Variant, call *w3Call, set w3SigSet, re
 		// no row: generic exercise
 		if effect {
 			o.st.OutcomeHistogram["unmodelled/effect"]++
-			o.st.AddViolation(fmt.Sprintf("method %s has no row in the requirement table and a stranger's call had an effect (%v)", mkey, d), rec)
+			o.violate("unmodelled", fmt.Sprintf("method %s has no row in the requirement table and a stranger's call had an effect (%v)", mkey, d), rec)
 		} else {
 			o.st.OutcomeHistogram["unmodelled/inert"]++
 		}
@@ -1068,13 +1069,13 @@ func (w *w3World) runCall(o *w3Out, v *w3Variant, call *w3Call, set w3SigSet, re
 	switch {
 	case !met && effect:
 		o.st.OutcomeHistogram["unmet/EFFECT"]++
-		o.st.AddViolation(fmt.Sprintf("%s (n=%d, %s) witnessed only by {%s}: requirement %s not met, yet the call had an effect: storage %v tokens %v notifications %d",
+		o.violate("effect", fmt.Sprintf("%s (n=%d, %s) witnessed only by {%s}: requirement %s not met, yet the call had an effect: storage %v tokens %v notifications %d",
 			mkey, w.N, v.Label, strings.Join(names, ","), req.Coq(), d.Storage, d.Tokens, len(r.Events)), rec)
 	case !met && class == "OHaltOther" && silentNoop:
 		o.st.OutcomeHistogram["unmet/silent-no-op-by-design"]++
 	case !met && class == "OHaltOther":
 		o.st.OutcomeHistogram["unmet/halt-without-refusal"]++
-		o.st.AddViolation(fmt.Sprintf("%s (n=%d, %s) witnessed only by {%s}: requirement %s not met, the call changed nothing but neither faulted nor returned false",
+		o.violate("not_refused", fmt.Sprintf("%s (n=%d, %s) witnessed only by {%s}: requirement %s not met, the call changed nothing but neither faulted nor returned false",
 			mkey, w.N, v.Label, strings.Join(names, ","), req.Coq()), rec)
 	case !met:
 		o.st.OutcomeHistogram["unmet/"+map[string]string{"OFaultGuard": "fault-at-guard", "OFault": "fault-elsewhere", "OFalse": "false"}[class]]++
@@ -1086,7 +1087,7 @@ func (w *w3World) runCall(o *w3Out, v *w3Variant, call *w3Call, set w3SigSet, re
 		w3Best(o.reached, mkey, "halt")
 	case met && (class == "OFaultGuard" || class == "OFalse"):
 		o.st.OutcomeHistogram["met/REFUSED"]++
-		o.st.AddViolation(fmt.Sprintf("%s (n=%d, %s) witnessed by {%s}: requirement %s met, yet the call was refused: %s %s",
+		o.violate("met_refused", fmt.Sprintf("%s (n=%d, %s) witnessed by {%s}: requirement %s met, yet the call was refused: %s %s",
 			mkey, w.N, v.Label, strings.Join(names, ","), req.Coq(), class, r.Fault), rec)
 	case met && class == "OFault":
 		o.st.OutcomeHistogram["met/fault-after-guard"]++
@@ -1105,6 +1106,22 @@ func (w *w3World) runCall(o *w3Out, v *w3Variant, call *w3Call, set w3SigSet, re
 	o.perMethod[mkey]++
 	o.recs = append(o.recs, rec)
 	return succeeded
+}
+
+// violate records a violation; at most w3MaxViolations replay files per kind
+// are written in one run (the rest is only counted).
+const w3MaxViolations = 25
+
+func (o *w3Out) violate(kind, what string, replay any) {
+	if o.vcount == nil {
+		o.vcount = map[string]int{}
+	}
+	o.vcount[kind]++
+	o.st.Extra["violations_total_"+kind] = o.vcount[kind]
+	if o.vcount[kind] > w3MaxViolations {
+		return
+	}
+	o.st.AddViolation(what, replay)
 }
 
 var w3Rank = map[string]int{"never-enabled": 0, "guard-passed": 1, "halt": 2, "effect": 3}
@@ -1351,6 +1368,7 @@ func (w *w3World) crossReplay(o *w3Out, table map[string]*w3Req, oks []w3OKCall)
 					c := *okc.c
 					c.Args = append([]any{}, okc.c.Args[:k]...)
 					c.Princ = append([]*w3Princ{}, okc.c.Princ[:k]...)
+					firstString := true
 					for _, p := range pb[k:] {
 						var a any
 						switch p.Type.String() {
@@ -1358,9 +1376,10 @@ func (w *w3World) crossReplay(o *w3Out, table map[string]*w3Req, oks []w3OKCall)
 							a = mode == "extra parameters set"
 						case "String":
 							a = ""
-							if mode == "extra parameters set" {
+							if mode == "extra parameters set" && firstString {
 								a = fmt.Sprintf("c03x%d", sq)
 							}
+							firstString = false
 						default:
 							a = w3DefaultArg(w, p)
 						}
@@ -1615,6 +1634,10 @@ func TestC03(t *testing.T) {
 	st.Extra["table_rows"] = len(table)
 	st.Extra["seconds"] = time.Since(t0).Seconds()
 	st.Extra["corpus"] = "neofs (notary-disabled) setConfig by a stranger runs first on every chain (defect F5, fixed by 13a1b83)"
+	// the gravest first: an effect without the required witnesses
+	sort.SliceStable(st.Violations, func(i, j int) bool {
+		return strings.Contains(st.Violations[i].What, "had an effect") && !strings.Contains(st.Violations[j].What, "had an effect")
+	})
 	st.Write()
 	if rb, err := json.Marshal(allRecs); err == nil {
 		_ = os.WriteFile(filepath.Join(OutDir(), "records_C03.json"), rb, 0o644)
